@@ -32,6 +32,8 @@ use cairo_lang_utils::ordered_hash_map::OrderedHashMap;
 use cairo_lang_utils::{CloneableDatabase, Intern};
 use itertools::Itertools;
 use rayon::iter::{IntoParallelIterator, ParallelIterator};
+#[cfg(cairo_verif)]
+use cairo_lang_utils::verif_par as rayon;
 use salsa::Database;
 
 use crate::canonical_id_replacer::CanonicalReplacer;
